@@ -68,6 +68,7 @@ fn profile() -> Profile {
         // knows at run time (a cancelled request makes it withhold the limit): not comparable
         // between a run and its twins
         shrink_mps_pct: 0,
+        lost_pubrecs_pct: 0,
         ..Profile::default()
     }
 }
@@ -495,10 +496,101 @@ fn bytes_written_during(t: &Trace, op: &OpRec) -> usize {
     n
 }
 
+/// Second family (not differential against acknowledgement timing): the cancelled request is the
+/// one that *fills* the send window. Receive Maximum w (1..4, or absent = the local limit of 8),
+/// w-1 unacknowledged QoS 1/2 publishes, then the w-th publish is dropped at a generated await
+/// point under partial writes; the application polls on, the broker acknowledges everything, the
+/// session is resumed once more. Oracle: the history monitor of C01/C02/C03/C06/C09 (well-formed
+/// stream, nothing lost, duplicated or corrupted) must report nothing that it does not also report
+/// for the twin without the cancellation.
+pub fn window_edge_cases() -> Vec<Case> {
+    let mut out = Vec::new();
+    let chunks: [&[u16]; 4] = [&[], &[1], &[3], &[2, 5]];
+    for w in [Some(1u16), Some(2), Some(3), Some(4), None] {
+        let n = w.unwrap_or(8) as usize;
+        for fq in 1u8..3 {
+            for tq in 1u8..3 {
+                for k in 0u16..7 {
+                    for (ci, ch) in chunks.iter().enumerate() {
+                        let mut steps = vec![Step::SetIo(IoCfg { read_chunks: vec![], write_chunks: ch.to_vec(), pend_first: true, read_cuts: vec![] })];
+                        for i in 0..n - 1 {
+                            steps.push(Step::Publish(PubSpec::simple(if i % 2 == 0 { fq } else { 3 - fq }, 2, 3, i as u8)));
+                        }
+                        steps.push(Step::Publish(PubSpec { cancel: Some(k), ..PubSpec::simple(tq, 3, 6, 200 + ci as u8) }));
+                        steps.push(Step::PollIdle { max: 20 });
+                        // a QoS 0 publish right behind it (must not be spliced into a half-written packet)
+                        steps.push(Step::Publish(PubSpec::simple(0, 2, 2, 77)));
+                        for _ in 0..2 {
+                            steps.push(Step::Broker(BrokerAct::AckAll { reverse: false }));
+                            steps.push(Step::PollIdle { max: 30 });
+                        }
+                        let drain = vec![
+                            Step::PollIdle { max: 30 },
+                            Step::Broker(BrokerAct::AckAll { reverse: false }),
+                            Step::PollIdle { max: 30 },
+                            Step::Broker(BrokerAct::AckAll { reverse: false }),
+                            Step::PollIdle { max: 30 },
+                        ];
+                        let connect = ConnectSpec { props: ConnackProps { receive_max: w, ..ConnackProps::default() }, ..ConnectSpec::default() };
+                        out.push(Case {
+                            cfg: Cfg { rx: 256, tx: 2048, ..Cfg::default() },
+                            broker: BrokerMode::Scripted,
+                            conns: vec![
+                                ConnScript { connect: connect.clone(), steps, end: EndHow::Drop },
+                                ConnScript { connect, steps: drain, end: EndHow::Drop },
+                            ],
+                        });
+                    }
+                }
+            }
+        }
+    }
+    out
+}
+
+fn without_cancel(case: &Case) -> Case {
+    let mut c = case.clone();
+    for cs in c.conns.iter_mut() {
+        for st in cs.steps.iter_mut() {
+            if let Step::Publish(ps) = st {
+                ps.cancel = None;
+            }
+        }
+        // (and whole writes: with short writes the window-filling publish is suspended and resumed
+        // inside publish() itself, which is the same code path as after a cancellation)
+        cs.steps.retain(|s| !matches!(s, Step::SetIo(_)));
+    }
+    c
+}
+
+/// Returns (violations attributed to the cancellation, was the operation really cancelled).
+pub fn eval_edge(case: &Case) -> (Vec<Violation>, bool, bool) {
+    let (v, _, t) = crate::props::scen::eval_case(case);
+    let cancelled = t.ops.iter().any(|o| matches!(o.res, OpRes::Cancelled { .. }));
+    if v.is_empty() {
+        return (vec![], cancelled, t.watchdog);
+    }
+    let (v0, _, _) = crate::props::scen::eval_case(&without_cancel(case));
+    let mine = v
+        .into_iter()
+        .filter(|x| !v0.iter().any(|y| y.sig == x.sig))
+        .map(|x| Violation { prop: "C13", sig: format!("C13/window-edge-cancel/{}", x.sig), detail: format!("only with the window-filling publish cancelled: {}", x.detail) })
+        .collect();
+    (mine, cancelled, t.watchdog)
+}
+
 pub fn run_check(ctx: &Ctx) -> i32 {
     let cases = ctx.tier.pick(10_000, 300_000);
     let budget = ctx.tier.pick(40, 160);
-    let agg = run_prop(ctx, "c13-input", 16, cases, strategy, |inp: &Input| {
+    let mut pre = Agg::default();
+    let edge = window_edge_cases();
+    let n_edge = edge.len();
+    for case in &edge {
+        let (violations, cancelled, watchdog) = eval_edge(case);
+        pre.record(ctx, "c13-edge", case, Eval { nontrivial: cancelled, violations, classes: vec!["window-filling-publish-cancelled"], watchdog });
+    }
+    pre.extra.insert("window_edge_cases".into(), serde_json::json!(n_edge));
+    let mut agg = run_prop(ctx, "c13-input", 16, cases, strategy, |inp: &Input| {
         let o = eval(inp, budget);
         let mut classes = Vec::new();
         if o.after_bytes > 0 {
@@ -515,15 +607,20 @@ pub fn run_check(ctx: &Ctx) -> i32 {
         }
         Eval { nontrivial: o.after_bytes > 0 || o.later_await > 0, violations: o.violations, classes, watchdog: o.watchdog }
     });
+    let pre_failed = pre.failure.clone();
+    agg.merge(pre);
+    if pre_failed.is_some() {
+        agg.failure = pre_failed;
+    }
     finish(
         ctx,
         agg,
         Report {
             level: "exploration",
-            rule: "random program of 1-2 connections x 1-9 steps (QoS 1/2 publishes, subscribe, unsubscribe, poll, recv, drive, broker deliveries of all QoS, final disconnect) against a reactive broker (acks every complete packet), pend-first transport with 1-byte / small partial writes so that every read, every accepted byte, every flush is an await point; await points counted in an uncancelled run; then each (operation, await point) pair - all of them when <= budget (quick 40, thorough 160), a generated sample otherwise - is run with that operation dropped there and the connection driven to idle. Oracle: per-transport sequence of request packets (DUP masked), per-transport sequence of PUBACK/PUBREC/PUBREL/PUBCOMP, sequence of delivered messages and final quiescence equal the uncancelled twin, or the twin without the operation if it left no trace; additionally a thinned set of pairs of cancellations in one run is compared against the four with/without combinations. Non-trivial = a cancellation after >= 1 byte of the operation was accepted, or at a second/later await point; distinct = distinct (program, selectors).".into(),
+            rule: "random program of 1-2 connections x 1-9 steps (QoS 1/2 publishes, subscribe, unsubscribe, poll, recv, drive, broker deliveries of all QoS, final disconnect) against a reactive broker (acks every complete packet), pend-first transport with 1-byte / small partial writes so that every read, every accepted byte, every flush is an await point; await points counted in an uncancelled run; then each (operation, await point) pair - all of them when <= budget (quick 40, thorough 160), a generated sample otherwise - is run with that operation dropped there and the connection driven to idle. Oracle: per-transport sequence of request packets (DUP masked), per-transport sequence of PUBACK/PUBREC/PUBREL/PUBCOMP, sequence of delivered messages and final quiescence equal the uncancelled twin, or the twin without the operation if it left no trace; additionally a thinned set of pairs of cancellations in one run is compared against the four with/without combinations. Second family (enumerated, 560 cases): Receive Maximum 1-4 or absent, window-1 unacknowledged QoS 1/2 publishes, the window-filling publish dropped at await point 0-6 under four partial-write patterns, a QoS 0 publish right behind it, acknowledgements, one resumed connection; oracle = the history monitor (well-formed stream, nothing lost / duplicated / corrupted, Receive Maximum) reports nothing that the twin without the cancellation (and with whole writes) does not. Non-trivial = a cancellation after >= 1 byte of the operation was accepted, or at a second/later await point (second family: the operation was really dropped); distinct = distinct (program, selectors).".into(),
             assumptions: vec![
                 "QoS 0 publish is documented as not cancel-safe and is never cancelled".into(),
-                "local in-flight limits are never reached (<= 5 retained requests per connection), so acceptance does not depend on acknowledgement timing".into(),
+                "first family: local in-flight limits are never reached (<= 5 retained requests per connection), so acceptance does not depend on acknowledgement timing; the window edge is the second family's subject".into(),
             ],
         },
     )
